@@ -26,6 +26,7 @@ def load_concepts():
     if not os.path.realpath(concepts.__file__).startswith(os.path.realpath(REPO) + os.sep):
         raise core.Inconclusive(f'concepts imported from {concepts.__file__}, expected {REPO}')
     _loaded['concepts'] = concepts
+    minterp.REPO_PREFIX = os.path.join(os.path.realpath(REPO), 'concepts') + os.sep
     from concepts import matrices
     _register_kernel_bounds()
     _patch_relation(matrices)
@@ -72,7 +73,8 @@ def table_from_model(model, cells):
 
 
 def set_width_for(n, m, extra=2):
-    core.set_width(max(n, m) + extra)
+    # at least 10 bits so that small integer constants of the code under test (+7, //8, 64 ...) fit the window
+    core.set_width(max(max(n, m) + extra, 10))
 
 
 # -- declarative specification terms (independent of the repository's algorithms) --------------------------
